@@ -548,7 +548,7 @@ def directed(run, rng, which):
                    ('AddFile', (), Z, 100), el((Z,), ls=70000, bit=True),
                    ('RmFile', (D,), BOOT), ('RmFile', (), CAT), ('RmLink', (D,), BOOT), ('RmDir', (D,)),
                    ('AddCatLink', (), CAT2), ('RmLink', (), CAT), ('RmEltorito',), ('RmFile', (), A),
-                   ('AddFile', (), CAT, 10), ('AddFile', (), B, 0), el((B,))]:
+                   ('AddFile', (), CAT, 10), ('AddFile', (), B, 1), el((B,))]:
             run.do(op)
         return 'example of AccountBootProofs.v'
     # which == 6: floppy media, load sizes, platform ids
